@@ -162,11 +162,12 @@ PROPS = {
                       "handle_http_conn_once, for every S, handler and request: a body is read to memory without consulting the handler iff it is "
                       "declared with L <= S (and then arrives as a Vec of exactly L bytes); the handler is consulted about a pending body only when "
                       "L > S or undeclared; a body is fetched to a file only after the handler asked, with the handler's own limit M, and the "
-                      "final handler run then sees a file body of n <= M bytes (n == L when declared) -- L > M never reaches a second run.",
+                      "final handler run then sees a file body of n <= M bytes (n == L when declared) -- L > M never reaches a second run. Request::recv_body (the handler-side helper): a body whose known "
+                      "length exceeds the limit is answered with a Normal 413 without being fetched, a body not yet fetched is asked for with exactly that limit, otherwise the request passes unchanged.",
         "level_note": "Assumed contracts: futures-lite Take (budget, pass-through, prophecy relation take_fate), async_fs::File as a writer, "
                       "temp_file::TempFile, fixed_buffer::FixedBuf (from its source), io read/write_all; the temp file's on-disk content is the "
                       "writer's ghost `cur()`; async removed (D1/D2); in handle_http_conn_once the handler future is replaced by its output (D4) and "
-                      "the handler is an arbitrary FnOnce(Request) -> Response. Not covered: Request::recv_body; 'never holds more than S bytes in "
+                      "the handler is an arbitrary FnOnce(Request) -> Response. 'never holds more than S bytes in "
                       "memory' only as far as the in-memory body is a Vec of the declared length <= S (the fixed head buffer is extra).",
         "verus": ["body", "conn"],
         "verus_thorough": ["copy"],
